@@ -172,7 +172,7 @@ class ZMQEventLoop(EventLoop):
             The condition to monitor on the file (defaults to ``POLLIN``).
         """
         if isinstance(fd, int):
-            fd = os.fdopen(fd)
+            fd = os.fdopen(fd, closefd=False)  # the descriptor stays the caller's
         self._poller.register(fd, flags)
         self._queue_callbacks[fd.fileno()] = callback
         return fd
